@@ -103,6 +103,36 @@ def random_jobs(ctx, prop, count):
                 job["start"] = rand_partition(rng, n, labels_pool if rng.random() < 0.5 else None)
             job["feedback"] = 1
         jobs.append(job)
+    # multi-level structure: rings of small cliques / long cycles make the optimisers aggregate over
+    # three or more levels with real merging at every level (random graphs on <= 8 nodes rarely do)
+    for t in range(max(40, count // 5)):
+        k, c = rng.choice([(5, 2), (6, 2), (7, 2), (8, 2), (4, 3), (5, 3), (6, 3)])
+        n = k * c
+        A = np.zeros((n, n))
+        wint = rng.choice([1, 1, 2])
+        for b in range(k):
+            for i in range(c):
+                for j in range(i + 1, c):
+                    A[b * c + i, b * c + j] = A[b * c + j, b * c + i] = rng.randint(1, wint)
+            u, v = b * c + c - 1, ((b + 1) % k) * c
+            A[u, v] = A[v, u] = 1
+        p = list(range(n))
+        rng.shuffle(p)
+        A = A[np.ix_(p, p)]
+        fn = ["community_louvain", "modularity_louvain_und", "modularity_finetune_und",
+              "community_louvain"][t % 4]
+        gn, gd = GAMMAS[(t // 4) % 3]
+        job = dict(fn=fn, prop=prop, W=A.tolist(), gn=gn, gd=gd, seed=rng.randrange(2 ** 31), src="ring-of-cliques")
+        if fn == "community_louvain":
+            job["objective"] = "modularity"
+        if fn == "modularity_louvain_und" and t % 8 < 4:
+            job["hierarchy"] = 1
+        if fn in lc.TAKES_START:
+            if t % 3:
+                lab = rng.sample(labels_pool, k) if k <= len(labels_pool) else list(range(k))
+                job["start"] = [lab[p[i] // c] for i in range(n)]     # one module per clique, shuffled labels
+            job["feedback"] = 1
+        jobs.append(job)
     # modularity_und/_dir/_und_sign for a given partition
     for t in range(max(30, count // 6)):
         which = t % 3
